@@ -151,6 +151,31 @@ fn called_params(p: &Program) -> std::collections::BTreeSet<BId> {
     out
 }
 
+/// Generic user types and generic functions (the generator's own types are monomorphic):
+/// (fully annotated, partially annotated, erased) renderings of the same definitions.
+const GENERIC_SNIPPETS: &[[&str; 3]] = &[
+    [
+        "Gbox :: blob(*T) {\n    v: *T,\n}\n\ngshow :: fn b: Gbox -> void do\n    print(b.v)\nend\n\ngb1: Gbox : Gbox { v: 1 }\n\ngb2: Gbox : Gbox { v: \"s\" }\n\nguse1 :: fn -> void do\n    gshow(gb1)\n    gshow(gb2)\nend\n",
+        "Gbox :: blob(*T) {\n    v: *T,\n}\n\ngshow :: fn b: Gbox do\n    print(b.v)\nend\n\ngb1 :: Gbox { v: 1 }\n\ngb2: Gbox(str) : Gbox { v: \"s\" }\n\nguse1 :: fn do\n    gshow(gb1)\n    gshow(gb2)\nend\n",
+        "Gbox :: blob(*T) {\n    v: *T,\n}\n\ngshow :: fn b do\n    print(b.v)\nend\n\ngb1 :: Gbox { v: 1 }\n\ngb2 :: Gbox { v: \"s\" }\n\nguse1 :: fn do\n    gshow(gb1)\n    gshow(gb2)\nend\n",
+    ],
+    [
+        "Gopt :: enum(*T)\n    Som *T,\n    Non,\nend\n\ngo1: Gopt : Gopt.Som 1\n\ngo2: Gopt(str) : Gopt.Som \"s\"\n\ngo3: Gopt : Gopt.Non\n\ngget :: fn o: Gopt(int), d: int -> int do\n    case o do\n        Som x ->\n            x\n        end\n        Non ->\n            d\n        end\n    end\nend\n\nguse2 :: fn -> void do\n    print(gget(go1, 0))\n    print(go2)\n    print(go3)\nend\n",
+        "Gopt :: enum(*T)\n    Som *T,\n    Non,\nend\n\ngo1 :: Gopt.Som 1\n\ngo2: Gopt : Gopt.Som \"s\"\n\ngo3 :: Gopt.Non\n\ngget :: fn o: Gopt, d -> int do\n    case o do\n        Som x ->\n            x\n        end\n        Non ->\n            d\n        end\n    end\nend\n\nguse2 :: fn do\n    print(gget(go1, 0))\n    print(go2)\n    print(go3)\nend\n",
+        "Gopt :: enum(*T)\n    Som *T,\n    Non,\nend\n\ngo1 :: Gopt.Som 1\n\ngo2 :: Gopt.Som \"s\"\n\ngo3 :: Gopt.Non\n\ngget :: fn o, d ->\n    case o do\n        Som x ->\n            x\n        end\n        Non ->\n            d\n        end\n    end\nend\n\nguse2 :: fn do\n    print(gget(go1, 0))\n    print(go2)\n    print(go3)\nend\n",
+    ],
+    [
+        "gid: fn *A -> *A : fn x: *A -> *A do\n    x\nend\n\ngpair :: fn a: *A, b: *B -> (*A, *B) do\n    (a, b)\nend\n\nguse3 :: fn -> void do\n    print(gid(1))\n    print(gid(\"s\"))\n    print(gpair(1, \"s\"))\n    print(gpair(\"t\", 2.5))\nend\n",
+        "gid :: fn x: *A -> *A do\n    x\nend\n\ngpair :: fn a, b: *B -> (*A, *B) do\n    (a, b)\nend\n\nguse3 :: fn do\n    print(gid(1))\n    print(gid(\"s\"))\n    print(gpair(1, \"s\"))\n    print(gpair(\"t\", 2.5))\nend\n",
+        "gid :: fn x ->\n    x\nend\n\ngpair :: fn a, b ->\n    (a, b)\nend\n\nguse3 :: fn do\n    print(gid(1))\n    print(gid(\"s\"))\n    print(gpair(1, \"s\"))\n    print(gpair(\"t\", 2.5))\nend\n",
+    ],
+    [
+        "gm: Maybe(int) : Maybe.None\n\ngl: [Maybe(str)] : [(Maybe.Just \"a\"), Maybe.None]\n\ngf :: fn m: Maybe(int) -> int do\n    case m do\n        Just v ->\n            v\n        end\n        None ->\n            0\n        end\n    end\nend\n\nguse4 :: fn -> void do\n    print(gf(gm))\n    print(gl)\nend\n",
+        "gm: Maybe : Maybe.None\n\ngl :: [(Maybe.Just \"a\"), Maybe.None]\n\ngf :: fn m: Maybe(int) ->\n    case m do\n        Just v ->\n            v\n        end\n        None ->\n            0\n        end\n    end\nend\n\nguse4 :: fn do\n    print(gf(gm))\n    print(gl)\nend\n",
+        "gm :: Maybe.None\n\ngl :: [(Maybe.Just \"a\"), Maybe.None]\n\ngf :: fn m ->\n    case m do\n        Just v ->\n            v\n        end\n        None ->\n            0\n        end\n    end\nend\n\nguse4 :: fn do\n    print(gf(gm))\n    print(gl)\nend\n",
+    ],
+];
+
 // ------------------------------------------------------------------ C08
 
 pub struct C08;
@@ -196,6 +221,19 @@ impl Check for C08 {
             };
             vs.push(Variant { label: format!("subset#{} density {}/4", k, density), text: print_with(&p, &name, &sub, None, None, None) });
         }
+        // generic snippets: variant 0 = fully annotated, variant 1 = erased, the subsets rotate over the three renderings
+        let sn = (index as usize) % GENERIC_SNIPPETS.len();
+        for (k, v) in vs.iter_mut().enumerate() {
+            let which = match k {
+                0 => 0,
+                1 => 2,
+                other => other % 3,
+            };
+            v.text.push_str("\n");
+            v.text.push_str(GENERIC_SNIPPETS[sn][which]);
+            v.label.push_str(&format!(" + generic snippet #{} rendering {}", sn, which));
+        }
+        st.count(&format!("generic_snippet:{}", sn));
         let (d, pa, r) = annot_sites(&p);
         st.add("annotation_sites:definitions", d);
         st.add("annotation_sites:parameters", pa);
@@ -595,6 +633,136 @@ pub fn apply_plant(p: &Program, pl: &Plant) -> Program {
     p2
 }
 
+/// `self` is only bound inside the function-valued fields of a blob literal: plant a use of `self`
+/// in a plain field initialiser that follows a method field (outside any method). Must be rejected.
+fn plant_self(p: &Program, rng: &mut Rng) -> Option<Program> {
+    fn walk(e: &mut Expr, in_method: bool, k: &mut i64, done: &mut bool) {
+        if *done {
+            return;
+        }
+        if let Expr::BlobNew { blob, fields } = e {
+            if !in_method {
+                let mut seen_method = false;
+                for i in 0..fields.len() {
+                    let is_method = matches!(fields[i].1, Expr::Lambda(_));
+                    if !is_method && seen_method {
+                        if *k == 0 {
+                            let fname = fields[i].0.clone();
+                            fields[i].1 = Expr::Field(Box::new(Expr::SelfRef(*blob)), fname);
+                            *done = true;
+                            return;
+                        }
+                        *k -= 1;
+                    }
+                    seen_method |= is_method;
+                }
+            }
+            let b = *blob;
+            let _ = b;
+            for (_, x) in fields.iter_mut() {
+                let m = in_method || matches!(x, Expr::Lambda(_));
+                walk(x, m, k, done);
+            }
+            return;
+        }
+        // generic descent
+        match e {
+            Expr::Bin(_, a, b) | Expr::AssertEq(a, b) => {
+                walk(a, in_method, k, done);
+                walk(b, in_method, k, done);
+            }
+            Expr::Un(_, a) | Expr::Field(a, _) | Expr::TupleIndex(a, _) => walk(a, in_method, k, done),
+            Expr::Call { callee, args, .. } => {
+                walk(callee, in_method, k, done);
+                for a in args {
+                    walk(a, in_method, k, done);
+                }
+            }
+            Expr::StdCall { args, .. } | Expr::Tuple(args) | Expr::List(args, _) => {
+                for a in args {
+                    walk(a, in_method, k, done);
+                }
+            }
+            Expr::If { branches, els } => {
+                for (c, b) in branches {
+                    walk(c, in_method, k, done);
+                    walk_block(b, in_method, k, done);
+                }
+                if let Some(b) = els {
+                    walk_block(b, in_method, k, done);
+                }
+            }
+            Expr::Case { scrut, arms, els, .. } => {
+                walk(scrut, in_method, k, done);
+                for a in arms {
+                    walk_block(&mut a.body, in_method, k, done);
+                }
+                if let Some(b) = els {
+                    walk_block(b, in_method, k, done);
+                }
+            }
+            Expr::Variant { payload: Some(p), .. } => walk(p, in_method, k, done),
+            Expr::Lambda(fd) => walk_block(&mut fd.body, in_method, k, done),
+            _ => {}
+        }
+    }
+    fn walk_block(b: &mut Block, in_method: bool, k: &mut i64, done: &mut bool) {
+        for s in b.stmts.iter_mut() {
+            match s {
+                Stmt::Def { init, .. } => walk(init, in_method, k, done),
+                Stmt::Assign { target, value, .. } => {
+                    if let LValue::Field(e, _) = target {
+                        walk(e, in_method, k, done);
+                    }
+                    walk(value, in_method, k, done);
+                }
+                Stmt::Loop { cond, body, .. } => {
+                    if let Some(c) = cond {
+                        walk(c, in_method, k, done);
+                    }
+                    walk_block(body, in_method, k, done);
+                }
+                Stmt::Ret(Some(e)) | Stmt::Expr(e) => walk(e, in_method, k, done),
+                Stmt::Block(b) => walk_block(b, in_method, k, done),
+                _ => {}
+            }
+        }
+        if let Some(v) = b.value.as_mut() {
+            walk(v, in_method, k, done);
+        }
+    }
+    // count candidates
+    let mut probe = p.clone();
+    let mut k: i64 = i64::MAX / 2;
+    let start_k = k;
+    let mut done = false;
+    let mut items = std::mem::take(&mut probe.items);
+    for it in items.iter_mut() {
+        if let Item::Global { init, .. } = it {
+            walk(init, false, &mut k, &mut done);
+        }
+    }
+    let n = (start_k - k) as usize;
+    if n == 0 {
+        return None;
+    }
+    let mut p2 = p.clone();
+    let mut k = rng.below(n) as i64;
+    let mut done = false;
+    let mut items = std::mem::take(&mut p2.items);
+    for it in items.iter_mut() {
+        if let Item::Global { init, .. } = it {
+            walk(init, false, &mut k, &mut done);
+        }
+    }
+    p2.items = items;
+    if done {
+        Some(p2)
+    } else {
+        None
+    }
+}
+
 impl Check for C09 {
     fn id(&self) -> &'static str {
         "C09"
@@ -645,6 +813,17 @@ impl Check for C09 {
         // (ii) scope-violating variants (only meaningful when the base is accepted)
         if !accepted {
             return;
+        }
+        if let Some(p2) = plant_self(&p, &mut rng) {
+            let name2 = default_name(&p2);
+            let text = print_with(&p2, &name2, &all_annot, None, None, None);
+            st.count("scope_violation_tried:self-in-plain-field-after-method");
+            st.add("compilations", 1);
+            match sy::compile_str(&text) {
+                sy::Compiled::Err { .. } => st.count("scope_violation_rejected:self-in-plain-field-after-method"),
+                sy::Compiled::Ok(_) => st.violation(Violation { signature: "scope:accepted:self-in-plain-field-after-method".into(), hazard: None, case: index, detail: J::obj().with("text", J::s(text)) }),
+                other => st.violation(Violation { signature: format!("scope:{}", other.brief()), hazard: None, case: index, detail: J::obj().with("text", J::s(text)) }),
+            }
         }
         let plants = scope_plants(&p);
         if plants.is_empty() {
